@@ -148,7 +148,8 @@ deriving Repr
 
 def plainKey (k : Nat) : Bool := k % 2 == 0
 
-structure State where
+/-- the shared store, the caller bookkeeping and the ghost map -/
+structure Store where
   hf : Nat → Nat → Nat      -- key, nb_bits ↦ bucket index: universal_rehash(key_hash(key), nb_bits)
   hint : Int                -- ht->max_collisions_hint
   maxb : Int                -- ht->max_table_nb_bits
@@ -156,43 +157,46 @@ structure State where
   top : Nat                 -- ht->rw_hash->nb_bits
   tab : Nat → Table
   warned : Bool             -- ht->warning_issued
-  thr : List Thread
   kheld : List Nat          -- caller bookkeeping: even keys with an outstanding `ins`
   iheld : List Nat          -- caller bookkeeping: item objects handed to the table
+  abs : List Item           -- ghost
+
+structure State where
+  m : Store
+  thr : List Thread
   time : Nat
   lins : List LinRec        -- ghost
-  abs : List Item           -- ghost
 
 /-! ## store accessors and the primitive mutations -/
 
-def State.bk (s : State) (T b : Nat) : Bucket := (s.tab T).bkt b
+def Store.bk (s : Store) (T b : Nat) : Bucket := (s.tab T).bkt b
 
-def State.setBk (s : State) (T b : Nat) (B : Bucket) : State :=
+def Store.setBk (s : Store) (T b : Nat) (B : Bucket) : Store :=
   { s with tab := upd s.tab T { s.tab T with bkt := upd (s.tab T).bkt b B } }
 
-def State.setLock (s : State) (T b v : Nat) : State :=
+def Store.setLock (s : Store) (T b v : Nat) : Store :=
   s.setBk T b { s.bk T b with lock := v }
 
 /-- `parsec_hash_table_nolock_insert_handle`: chain at the front, `cur_len++` -/
-def State.pushFront (s : State) (T b : Nat) (it : Item) : State :=
+def Store.pushFront (s : Store) (T b : Nat) (it : Item) : Store :=
   s.setBk T b { s.bk T b with items := it :: (s.bk T b).items, len := (s.bk T b).len + 1 }
 
 /-- unlink the item from the chain, `--cur_len` -/
-def State.eraseIt (s : State) (T b : Nat) (it : Item) : State :=
+def Store.eraseIt (s : Store) (T b : Nat) (it : Item) : Store :=
   s.setBk T b { s.bk T b with items := (s.bk T b).items.erase it, len := (s.bk T b).len - 1 }
 
-def State.decUsed (s : State) (T : Nat) : State :=
+def Store.decUsed (s : Store) (T : Nat) : Store :=
   { s with tab := upd s.tab T { s.tab T with used := (s.tab T).used - 1 } }
 
-def State.setNext (s : State) (T v : Nat) : State :=
+def Store.setNext (s : Store) (T v : Nat) : Store :=
   { s with tab := upd s.tab T { s.tab T with next := v } }
 
 /-- number of buckets of table `T` with a non-NULL `first_item` -/
-def State.usedCount (s : State) (T : Nat) : Nat :=
+def Store.usedCount (s : Store) (T : Nat) : Nat :=
   (List.range (2 ^ T)).countP fun b => !(s.bk T b).items.isEmpty
 
 /-- `parsec_hash_table_resize` -/
-def State.resize (s : State) : State :=
+def Store.resize (s : Store) : Store :=
   { s with
     tab := upd (upd s.tab s.top { s.tab s.top with used := (s.usedCount s.top : Nat) })
              (s.top + 1) { used := 0, next := s.top, bkt := fun _ => {} },
@@ -203,160 +207,160 @@ def scan (l : List Item) (k : Nat) : Option Item := l.find? fun it => it.key == 
 /-! ## one micro step of a thread -/
 
 structure Out where
-  st : State
+  m : Store
   th : Thread
   lin : Option LinRec
 
 def Thread.goto (th : Thread) (pc : Pc) : Thread := { th with pc := pc }
 
-def stay (s : State) (th : Thread) : Out := ⟨s, th, none⟩
+def stay (s : Store) (th : Thread) : Out := ⟨s, th, none⟩
 
 /-- the step is the linearization point of the running operation, with result `r` -/
-def linAt (s : State) (t : Nat) (th : Thread) (pc : Pc) (r : Nat) : Out :=
-  ⟨s, { th with pc := pc, tLin := s.time }, some ⟨t, th.op, th.op.res r, th.tInv, s.time⟩⟩
+def linAt (s : Store) (t now : Nat) (th : Thread) (pc : Pc) (r : Nat) : Out :=
+  ⟨s, { th with pc := pc, tLin := now }, some ⟨t, th.op, th.op.res r, th.tInv, now⟩⟩
 
 /-- caller bookkeeping when a call returns -/
-def release (s : State) (op : Op) (r : Nat) : State :=
+def release (s : Store) (op : Op) (r : Nat) : Store :=
   match op with
   | .rem k => if r = 0 then s else
       { s with iheld := s.iheld.erase r, kheld := if plainKey k then s.kheld.erase k else s.kheld }
   | .foi _ i => if r = i then s else { s with iheld := s.iheld.erase i }
   | _ => s
 
-def finish (s : State) (th : Thread) (r : Nat) : Out :=
+def finish (s : Store) (now : Nat) (th : Thread) (r : Nat) : Out :=
   ⟨release s th.op r,
-   { th with pc := .idle, hist := th.hist ++ [⟨th.op, th.op.res r, th.tInv, th.tLin, s.time⟩] }, none⟩
+   { th with pc := .idle, hist := th.hist ++ [⟨th.op, th.op.res r, th.tInv, th.tLin, now⟩] }, none⟩
 
-def Op.admissible (s : State) : Op → Bool
+def Op.admissible (s : Store) : Op → Bool
   | .ins k i => plainKey k && !s.kheld.contains k && i != 0 && !s.iheld.contains i
   | .foi k i => !plainKey k && i != 0 && !s.iheld.contains i
   | _ => true
 
-def acquire (s : State) : Op → State
+def acquire (s : Store) : Op → Store
   | .ins k i => { s with kheld := k :: s.kheld, iheld := i :: s.iheld }
   | .foi _ i => { s with iheld := i :: s.iheld }
   | _ => s
 
 /-- invocation of the next operation of the program (no access to the table) -/
-def invoke (s : State) (t : Nat) (th : Thread) : Out :=
+def invoke (s : Store) (t now : Nat) (th : Thread) : Out :=
   match th.todo with
   | [] => stay s th
   | op :: rest =>
     if op.admissible s then
-      ⟨acquire s op, { th with op := op, todo := rest, tInv := s.time, pc := .rd }, none⟩
+      ⟨acquire s op, { th with op := op, todo := rest, tInv := now, pc := .rd }, none⟩
     else
-      ⟨s, { th with op := op, todo := rest, tInv := s.time, tLin := s.time, pc := .idle,
-                    hist := th.hist ++ [⟨op, .rejected, s.time, s.time, s.time⟩] },
-       some ⟨t, op, .rejected, s.time, s.time⟩⟩
+      ⟨s, { th with op := op, todo := rest, tInv := now, tLin := now, pc := .idle,
+                    hist := th.hist ++ [⟨op, .rejected, now, now, now⟩] },
+       some ⟨t, op, .rejected, now, now⟩⟩
 
 /-- bucket of the running operation's key in the top-level table -/
-def tbk (s : State) (th : Thread) : Nat := s.hf th.op.key s.top
+def tbk (s : Store) (th : Thread) : Nat := s.hf th.op.key s.top
 
 /-- the item found in an older table goes to the top-level table (find, foi) or to the caller (rem) -/
-def mvInsert (s : State) (th : Thread) (it : Item) : State :=
+def mvInsert (s : Store) (th : Thread) (it : Item) : Store :=
   if th.op.mv then s.pushFront s.top (tbk s th) it else s
 
-def stepRd (s : State) (th : Thread) : Out :=
-  if s.thr.any (fun x => x.pc.isWriter) then stay s th else ⟨s, th.goto .lt, none⟩
+def stepRd (s : Store) (thr : List Thread) (th : Thread) : Out :=
+  if thr.any (fun x => x.pc.isWriter) then stay s th else ⟨s, th.goto .lt, none⟩
 
 /-- top-level bucket locked: the work of the operation on that bucket -/
-def ltBody (s : State) (t : Nat) (th : Thread) (b : Nat) : Op → Out
+def ltBody (s : Store) (t now : Nat) (th : Thread) (b : Nat) : Op → Out
   | .ins k i =>
-    linAt { s.pushFront s.top b ⟨k, i⟩ with abs := ⟨k, i⟩ :: s.abs } t th (.ult 0) 0
+    linAt { s.pushFront s.top b ⟨k, i⟩ with abs := ⟨k, i⟩ :: s.abs } t now th (.ult 0) 0
   | .find k =>
     match scan (s.bk s.top b).items k with
-    | some it => linAt s t th (.ult it.id) it.id
+    | some it => linAt s t now th (.ult it.id) it.id
     | none => ⟨s, th.goto (.nx s.top), none⟩
   | .rem k =>
     match scan (s.bk s.top b).items k with
-    | some it => linAt { s.eraseIt s.top b it with abs := s.abs.erase it } t th (.ult it.id) it.id
+    | some it => linAt { s.eraseIt s.top b it with abs := s.abs.erase it } t now th (.ult it.id) it.id
     | none => ⟨s, th.goto (.nx s.top), none⟩
   | .foi k _ =>
     match scan (s.bk s.top b).items k with
-    | some it => linAt s t th (.ult it.id) it.id
+    | some it => linAt s t now th (.ult it.id) it.id
     | none => ⟨s, th.goto (.nx s.top), none⟩
 
-def stepLt (s : State) (t : Nat) (th : Thread) : Out :=
+def stepLt (s : Store) (t now : Nat) (th : Thread) : Out :=
   if (s.bk s.top (tbk s th)).lock = 0 then
-    ltBody (s.setLock s.top (tbk s th) (t + 1)) t th (tbk s th) th.op
+    ltBody (s.setLock s.top (tbk s th) (t + 1)) t now th (tbk s th) th.op
   else stay s th
 
 /-- `head = cur->next`; NULL: the key is in no table -/
-def stepNx (s : State) (t : Nat) (th : Thread) (cur : Nat) : Out :=
+def stepNx (s : Store) (t now : Nat) (th : Thread) (cur : Nat) : Out :=
   if (s.tab cur).next = 0 then
     match th.op with
     | .foi k i =>
-      linAt { s.pushFront s.top (tbk s th) ⟨k, i⟩ with abs := ⟨k, i⟩ :: s.abs } t th (.ult i) i
-    | _ => linAt s t th (.ult 0) 0
+      linAt { s.pushFront s.top (tbk s th) ⟨k, i⟩ with abs := ⟨k, i⟩ :: s.abs } t now th (.ult i) i
+    | _ => linAt s t now th (.ult 0) 0
   else ⟨s, th.goto (.lo (s.tab cur).next cur), none⟩
 
 /-- the item was found in (and unlinked from) bucket `hf k hd` of the old table `hd`, whose `cur_len`
     was `len` before -/
-def loFound (s : State) (t : Nat) (th : Thread) (hd pv : Nat) (it : Item) (len : Int) : Out :=
-  if len - 1 = 0 then linAt s t th (.du hd pv it) it.id
-  else linAt (mvInsert s th it) t th (.ulo hd (some it)) it.id
+def loFound (s : Store) (t now : Nat) (th : Thread) (hd pv : Nat) (it : Item) (len : Int) : Out :=
+  if len - 1 = 0 then linAt s t now th (.du hd pv it) it.id
+  else linAt (mvInsert s th it) t now th (.ulo hd (some it)) it.id
 
-def absAfterFound (s : State) (th : Thread) (it : Item) : State :=
+def absAfterFound (s : Store) (th : Thread) (it : Item) : Store :=
   if th.op.mv then s else { s with abs := s.abs.erase it }
 
-def stepLo (s : State) (t : Nat) (th : Thread) (hd pv : Nat) : Out :=
+def stepLo (s : Store) (t now : Nat) (th : Thread) (hd pv : Nat) : Out :=
   if (s.bk hd (s.hf th.op.key hd)).lock = 0 then
     match scan (s.bk hd (s.hf th.op.key hd)).items th.op.key with
     | none => ⟨s.setLock hd (s.hf th.op.key hd) (t + 1), th.goto (.ulo hd none), none⟩
     | some it =>
       loFound (absAfterFound ((s.setLock hd (s.hf th.op.key hd) (t + 1)).eraseIt hd (s.hf th.op.key hd) it) th it)
-        t th hd pv it (s.bk hd (s.hf th.op.key hd)).len
+        t now th hd pv it (s.bk hd (s.hf th.op.key hd)).len
   else stay s th
 
-def stepDu (s : State) (th : Thread) (hd pv : Nat) (it : Item) : Out :=
+def stepDu (s : Store) (th : Thread) (hd pv : Nat) (it : Item) : Out :=
   if (s.tab hd).used = 1 then ⟨s.decUsed hd, th.goto (.cn hd pv (s.tab hd).next it), none⟩
   else ⟨mvInsert (s.decUsed hd) th it, th.goto (.ulo hd (some it)), none⟩
 
-def stepCn (s : State) (th : Thread) (hd pv nv : Nat) (it : Item) : Out :=
+def stepCn (s : Store) (th : Thread) (hd pv nv : Nat) (it : Item) : Out :=
   ⟨mvInsert (if (s.tab pv).next = hd then s.setNext pv nv else s) th it, th.goto (.ulo hd (some it)), none⟩
 
-def stepUlo (s : State) (th : Thread) (hd : Nat) (r : Option Item) : Out :=
+def stepUlo (s : Store) (th : Thread) (hd : Nat) (r : Option Item) : Out :=
   ⟨s.setLock hd (s.hf th.op.key hd) 0,
    th.goto (match r with | some it => .ult it.id | none => .nx hd), none⟩
 
 /-- `cur_len > max_collisions_hint` on the unlock path of insert / unlock_bucket_handle -/
-def over (s : State) (th : Thread) : Bool :=
+def over (s : Store) (th : Thread) : Bool :=
   th.op.mayResize && decide ((s.bk s.top (tbk s th)).len > s.hint)
 
-def roomToGrow (s : State) : Bool := decide ((s.top : Int) + 1 < s.maxb)
+def roomToGrow (s : Store) : Bool := decide ((s.top : Int) + 1 < s.maxb)
 
-def stepUlt (s : State) (th : Thread) (r : Nat) : Out :=
+def stepUlt (s : Store) (th : Thread) (r : Nat) : Out :=
   ⟨{ s.setLock s.top (tbk s th) 0 with warned := s.warned || (over s th && !roomToGrow s) },
    th.goto (.rul r (over s th && roomToGrow s) s.top), none⟩
 
-def stepRul (s : State) (th : Thread) (r : Nat) (rz : Bool) (ch : Nat) : Out :=
-  if rz then ⟨s, th.goto (.wr ch r), none⟩ else finish s th r
+def stepRul (s : Store) (now : Nat) (th : Thread) (r : Nat) (rz : Bool) (ch : Nat) : Out :=
+  if rz then ⟨s, th.goto (.wr ch r), none⟩ else finish s now th r
 
-def stepWr (s : State) (th : Thread) (ch r : Nat) : Out :=
-  if s.thr.any (fun x => x.pc.isReader || x.pc.isWriter) then stay s th
+def stepWr (s : Store) (thr : List Thread) (th : Thread) (ch r : Nat) : Out :=
+  if thr.any (fun x => x.pc.isReader || x.pc.isWriter) then stay s th
   else ⟨if ch = s.top then s.resize else s, th.goto (.wul r), none⟩
 
-def stepPc (s : State) (t : Nat) (th : Thread) : Pc → Out
-  | .idle => invoke s t th
-  | .rd => stepRd s th
-  | .lt => stepLt s t th
-  | .nx cur => stepNx s t th cur
-  | .lo hd pv => stepLo s t th hd pv
+def stepPc (s : Store) (thr : List Thread) (t now : Nat) (th : Thread) : Pc → Out
+  | .idle => invoke s t now th
+  | .rd => stepRd s thr th
+  | .lt => stepLt s t now th
+  | .nx cur => stepNx s t now th cur
+  | .lo hd pv => stepLo s t now th hd pv
   | .du hd pv it => stepDu s th hd pv it
   | .cn hd pv nv it => stepCn s th hd pv nv it
   | .ulo hd r => stepUlo s th hd r
   | .ult r => stepUlt s th r
-  | .rul r rz ch => stepRul s th r rz ch
-  | .wr ch r => stepWr s th ch r
-  | .wul r => finish s th r
+  | .rul r rz ch => stepRul s now th r rz ch
+  | .wr ch r => stepWr s thr th ch r
+  | .wul r => finish s now th r
 
-def stepTh (s : State) (t : Nat) (th : Thread) : Out := stepPc s t th th.pc
+def stepTh (s : State) (t : Nat) (th : Thread) : Out := stepPc s.m s.thr t s.time th th.pc
 
 def step (s : State) (t : Nat) : State :=
   match s.thr[t]? with
   | none => s
   | some th =>
-    { (stepTh s t th).st with
+    { m := (stepTh s t th).m,
       thr := s.thr.set t (stepTh s t th).th,
       time := s.time + 1,
       lins := s.lins ++ (stepTh s t th).lin.toList }
@@ -376,10 +380,10 @@ def Config.WF (c : Config) : Prop := 1 ≤ c.nb0 ∧ ∀ k nb, c.hf k nb < 2 ^ n
 def blankTable : Table := { used := 0, next := 0, bkt := fun _ => {} }
 
 def init (c : Config) : State :=
-  { hf := c.hf, hint := c.hint, maxb := c.maxb, nb0 := c.nb0, top := c.nb0,
-    tab := fun _ => blankTable, warned := false,
+  { m := { hf := c.hf, hint := c.hint, maxb := c.maxb, nb0 := c.nb0, top := c.nb0,
+           tab := fun _ => blankTable, warned := false, kheld := [], iheld := [], abs := [] },
     thr := c.progs.map fun p => ⟨.idle, .find 0, p, [], 0, 0⟩,
-    kheld := [], iheld := [], time := 0, lins := [], abs := [] }
+    time := 0, lins := [] }
 
 def run (c : Config) (sched : List Nat) : State := sched.foldl step (init c)
 
@@ -412,17 +416,17 @@ def Spec.replay (σ : List Item) : List (Op × Res) → Option (List Item)
 
 /-! ## `parsec_hash_table_for_all` on a quiescent table -/
 
-def tableItems (s : State) (T : Nat) : List Item :=
+def tableItems (s : Store) (T : Nat) : List Item :=
   (List.range (2 ^ T)).flatMap fun b => (s.bk T b).items
 
 /-- the tables reached from `T` following `next` (fuel = an upper bound of the chain length) -/
-def chain (s : State) : Nat → Nat → List Nat
+def chain (s : Store) : Nat → Nat → List Nat
   | 0, _ => []
   | _ + 1, 0 => []
   | fuel + 1, T => T :: chain s fuel (s.tab T).next
 
 /-- the items in the order `parsec_hash_table_for_all` passes them to the callback -/
-def forAll (s : State) : List Item :=
+def forAll (s : Store) : List Item :=
   (chain s (s.top + 1) s.top).flatMap (tableItems s)
 
 /-! ## macro steps: what one step of the cooperative scheduler executes -/
